@@ -95,7 +95,7 @@ Definition an0 := {| a_method := false; a_complex := []; a_posnames := [Some 10]
 Definition anm := {| a_method := true; a_complex := []; a_posnames := [Some 10] |}.
 Definition p0 := {| p_anal := an0; p_rs := Some 1; p_cs := Some 2; p_alias := []; p_id := 7; p_code := 3 |}.
 Definition pm := {| p_anal := anm; p_rs := Some 1; p_cs := Some 2; p_alias := []; p_id := 7; p_code := 3 |}.
-Definition pa := {| p_anal := an0; p_rs := Some 1; p_cs := Some 2; p_alias := [3]; p_id := 7; p_code := 3 |}.
+Definition pa := {| p_anal := an0; p_rs := Some 1; p_cs := Some 2; p_alias := [(3, false)]; p_id := 7; p_code := 3 |}.
 Definition st0 : state nat :=
   {| s_frames := [ {| f_comp := false; f_vars := [] |} ]; s_gvars := []; s_trace := []; s_world := 0 |}.
 Definition run (p : rwp) (table glob : list sx) (reg : bool) (e : expr) :=
